@@ -6,7 +6,7 @@ from functools import cached_property
 
 from ..cfg import CFG, Node, handler_names, iter_own
 from ..loader import exc_expr, AnalysisError, ClassInfo, FuncInfo, dotted, walk_own
-from .common import Anchors, call_name, is_const, names_in, self_attr
+from .common import Anchors, call_name, def_use_closure, is_const, names_in, self_attr
 from .discharge import controlling_tests
 
 
@@ -205,27 +205,32 @@ def runner_rules(ctx, ta: TaskAnchors, rule: str, handler_rule: str | None = Non
         # `if h is not None and h(exc): return`, or guard clauses `if h is None: raise` /
         # `if not h(exc): raise` followed by falling through).
         truthy_edges = []  # (test node id, label taken when handler(exc) was truthy)
+        from .common import find_assign_sources as _fas
+
+        def implies_truthy(expr, value: bool, depth: int = 0) -> bool:
+            """Does `expr` evaluating to `value` imply that handler(exc) returned a truthy value?"""
+            if isinstance(expr, ast.UnaryOp) and isinstance(expr.op, ast.Not):
+                return implies_truthy(expr.operand, not value, depth)
+            if isinstance(expr, ast.BoolOp) and isinstance(expr.op, ast.And) and value:
+                return any(implies_truthy(v, True, depth) for v in expr.values)
+            if isinstance(expr, ast.BoolOp) and isinstance(expr.op, ast.Or) and not value:
+                return any(implies_truthy(v, False, depth) for v in expr.values)
+            if isinstance(expr, ast.Call) and isinstance(expr.func, ast.Name) and expr.func.id == handler_param:
+                return value
+            if isinstance(expr, ast.Call) and isinstance(expr.func, ast.Name) and expr.func.id == "bool" and len(expr.args) == 1:
+                return implies_truthy(expr.args[0], value, depth)
+            if isinstance(expr, ast.Name) and depth < 3:
+                srcs = _fas(R, expr.id)
+                return len(srcs) == 1 and implies_truthy(srcs[0], value, depth + 1)
+            return False
+
         for i in region:
             t = cfg.nodes[i]
             if t.kind != "test":
                 continue
-            e, pol = t.ast, "t"
-            while isinstance(e, ast.UnaryOp) and isinstance(e.op, ast.Not):
-                e, pol = e.operand, ("f" if pol == "t" else "t")
-            parts = e.values if isinstance(e, ast.BoolOp) and isinstance(e.op, ast.And) else [e]
-            if isinstance(e, ast.BoolOp) and isinstance(e.op, ast.Or):
-                continue  # handled below as "not swallow-proof"
-            for part in parts:
-                pe, pp = part, pol
-                while isinstance(pe, ast.UnaryOp) and isinstance(pe.op, ast.Not):
-                    pe, pp = pe.operand, ("f" if pp == "t" else "t")
-                if isinstance(pe, ast.Call) and isinstance(pe.func, ast.Name) and pe.func.id == handler_param:
-                    # the whole test is true only if this conjunct is true
-                    if isinstance(e, ast.BoolOp):
-                        if pp == pol == "t":
-                            truthy_edges.append((t.id, "t"))
-                    else:
-                        truthy_edges.append((t.id, pp))
+            for lab_ in ("t", "f"):
+                if implies_truthy(t.ast, lab_ == "t"):
+                    truthy_edges.append((t.id, lab_))
 
         def no_truthy(src, dst, lab):
             if lab in ("e", "h"):
@@ -297,11 +302,23 @@ def run(ctx) -> None:
                 root = fcfg.own_ast(src)
                 if root is not None and any(isinstance(e, ast.Await) for e in iter_own(root)):
                     return True
-                return src.kind == "stmt" and isinstance(src.ast, ast.Raise)
+                if src.kind == "stmt" and isinstance(src.ast, ast.Raise):
+                    return True
+                # anything else that may raise according to the effects table (e.g. computing a
+                # display name of the callable for a log line)
+                return bool(a.node_may_raise(F, fcfg, src))
             return True
 
         pre = fcfg.reach([fcfg.entry], avoid=wids, edge_ok=raising)
-        rep.check("C08.R2", fcfg.raise_exit not in pre, F, wait_nodes[0].ast, "an exception from the teardown action (sync or while awaiting its result) cannot escape past the wait", "an exception raised by (or while awaiting) the teardown action escapes the finalizer without cancelling and waiting for the task: the task keeps running after its owning context was left")
+        culprit = None
+        if fcfg.raise_exit in pre:
+            for i in sorted(pre):
+                n_ = fcfg.nodes[i]
+                if any(d_ == fcfg.raise_exit or lab_ == "e" for d_, lab_ in n_.succ) and raising(n_, fcfg.raise_exit, "e") and fcfg.raise_exit in fcfg.reach([d_ for d_, lab_ in n_.succ if lab_ == "e"], avoid=wids, edge_ok=raising):
+                    culprit = n_
+                    break
+        why_ = "; ".join(a.node_may_raise(F, fcfg, culprit)[:1]) if culprit is not None else ""
+        rep.check("C08.R2", fcfg.raise_exit not in pre, F, culprit.ast if culprit is not None and isinstance(culprit.ast, ast.AST) else wait_nodes[0].ast, "nothing in the finalizer (the teardown action, awaiting its result, or anything around them) can raise past the wait", f"an exception can escape the finalizer before the task was stopped and awaited{' (' + why_ + ')' if why_ else ''}: the teardown callable is not invoked / the task is not cancelled, it keeps running after its owning context was left and the root task group waits for it for ever")
 
     # ------------------------------------------------------------------ R1 finalizer shape
     if not t_cancel or not t_none:
@@ -422,14 +439,25 @@ def run(ctx) -> None:
     rep.check("C08.R5", all(f in (init, aenter) for f in all_creates), S, None, "the task group attribute is assigned only in __init__/__aenter__", "the task group attribute is reassigned elsewhere")
 
     # ------------------------------------------------------------------ R6 validation first
-    vtests = [t for t in scfg.live_nodes() if t.kind == "test" and "teardown_action" in names_in(t.ast) and "callable" in ast.unparse(t.ast)]
-    if not vtests:
+    # an invalid action is rejected with ValueError before anything is spawned - whatever the
+    # shape of the validation (one compound test, guard clauses, nested tests)
+    from .discharge import controlling_tests as _ct6
+
+    aparam = "teardown_action"
+    vraises = []
+    for n_ in scfg.live_nodes():
+        if n_.kind == "stmt" and isinstance(n_.ast, ast.Raise) and n_.ast.exc is not None and "ValueError" in ast.unparse(exc_expr(n_.ast)):
+            cts = _ct6(scfg, n_)
+            if any(isinstance(t_.ast, ast.AST) and (aparam in names_in(t_.ast) or aparam in def_use_closure(S, t_.ast)) for t_, _l in cts):
+                vraises.append(n_)
+    if not vraises or not any("callable" in ast.unparse(t_.ast) for r_ in vraises for t_, _l in _ct6(scfg, r_) if isinstance(t_.ast, ast.AST)):
         rep.violate("C08.R6", S, S.node, "an invalid teardown_action is not rejected")
     elif spawn_nodes:
-        t = vtests[0]
-        side = [d for d, lab in t.succ if lab == "t"]
-        first = scfg.nodes[side[0]] if side else None
-        rep.check("C08.R6", first is not None and isinstance(first.ast, ast.Raise) and "ValueError" in ast.unparse(exc_expr(first.ast)) and scfg.dominates(t.id, spawn_nodes[0].id), S, t.ast, "an invalid teardown_action raises ValueError before the task is spawned", "an invalid teardown_action is detected only after the task was spawned (or not with ValueError)")
+        after_spawn = scfg.reach([spawn_nodes[0].id])
+        late = [r_ for r_ in vraises if r_.id in after_spawn]
+        vt = [t_ for r_ in vraises for t_, _l in _ct6(scfg, r_) if isinstance(t_.ast, ast.AST) and (aparam in names_in(t_.ast) or aparam in def_use_closure(S, t_.ast))]
+        before = bool(vt) and all(t_.id not in after_spawn for t_ in vt) and any(scfg.dominates(t_.id, spawn_nodes[0].id) for t_ in vt)
+        rep.check("C08.R6", not late and before, S, vraises[0].ast, "an invalid teardown_action is rejected with ValueError before the task is spawned", "an invalid teardown_action is detected only after the task was spawned (or not with ValueError)")
 
     # ------------------------------------------------------------------ R7 handle isolation
     handle_isolation(ctx, ta, "C08.R7")
